@@ -292,7 +292,7 @@ pub(crate) fn run(seed: u64, n: u64, out: &mut Out) {
                 if p.name == "proved-with-pending-fetches" { arm_fetches(&p.c, &p.chain, peer); }
                 let o = p.c.recv_bytes(peer, data.clone());
                 let v = Val::l(vec![Val::n(if o.panicked { 3 } else { 0 })]);
-                let oracle = if o.panicked { Err(format!("[C10-light-client-panic] {} in state {} made the handler panic", what, p.name)) } else { Ok(()) };
+                let oracle = if o.panicked { Err(format!("[C10-light-client-panic] {} in state {} made the handler panic: {}", what, p.name, super::last_panic())) } else { Ok(()) };
                 let hex: String = data.iter().take(64).map(|b| format!("{:02x}", b)).collect();
                 out.case(&format!("lc-{}", idx), &["light-client", p.name, &what], "(VL [VN 0])", &v, oracle,
                     &format!("{} ({} bytes: {}...) delivered to a peer in state {}", what, data.len(), hex, p.name));
